@@ -46,6 +46,10 @@ class Tokenizer:
             self.report(cached, False)
         return tok
 
+    def at_frontier(self) -> bool:
+        """No token beyond the current position has been read from the token source yet."""
+        return self._index == len(self._tokens)
+
     def peek(self) -> TokenInfo:
         """Return the next token *without* updating the index."""
         while self._index == len(self._tokens):
